@@ -936,6 +936,29 @@ theorem signatures_never_transplant_gravity_id_texts (H : List Nat → List Nat)
   subst hw
   exact ⟨hab, by rw [hw1, hw2], fun n1 n2 => gidWord_inj s1 s2 hb1 hb2 n1 n2 w1 hw1 hw2⟩
 
+/-- END TO END over gravity-id TEXTS (section 6 restated without any numeric bound): on a chain whose parameters hold the
+admitted text `s`, after ANY sequence of typed object stores, registry writes, confirms and prunings, if the contract of a chain
+configured with ANY admitted text `s2` recomputes for ANY well-formed object `b` the digest a stored confirmation was verified
+against, then `b` is the stored object the confirmation names and `s2` is packed as the same `bytes32` as `s` (and is the same
+text when neither ends in a NUL byte) -/
+theorem stored_confirm_valid_for_no_other_chain_text (recover : List Nat → List Nat → Option String) (H : List Nat → List Nat)
+    (hH : CollisionResistant H) (s s2 : List Nat) (hs : Bytes s) (hs2 : Bytes s2)
+    (v : gidParamValid s = true) (v2 : gidParamValid s2 = true)
+    (tops : List TOp) (hok : ∀ t ∈ tops, t.ok = true)
+    (hwf : ∀ tok a, TOp.store tok a ∈ tops → a.WF ∧ a.Int64Safe) (e : Entry)
+    (he : e ∈ (run recover {} (tops.map (TOp.toOp H ((gidWord s).getD 0)))).confirms)
+    (b : AnyObj) (wb : b.WF) (hcol : contractDigest H ((gidWord s2).getD 0) b = e.digest) :
+    ∃ tok, TOp.store tok b ∈ tops ∧ e.key = keyOf tok b ∧ gidWord s2 = gidWord s ∧
+      (NoTrailingNul s → NoTrailingNul s2 → s2 = s) := by
+  obtain ⟨_, _, w, hw, hl⟩ := valid_gravity_id_has_word s hs v
+  obtain ⟨_, _, w2, hw2, hl2⟩ := valid_gravity_id_has_word s2 hs2 v2
+  rw [hw] at he
+  rw [hw2] at hcol
+  simp only [Option.getD_some] at he hcol
+  obtain ⟨tok, h1, h2, h3⟩ := stored_confirm_valid_for_nothing_else recover H hH w hl tops hok hwf e he b w2 wb hl2 hcol
+  subst h3
+  exact ⟨tok, h1, h2, by rw [hw, hw2], fun n n2 => gidWord_inj s2 s hs2 hs n2 n w2 hw2 hw⟩
+
 end GravityId
 
 /-! ## 13. (round 4) where the `int64`-cast fields come from: `CalExternalTimeoutHeight`, the builders, the counters -/
@@ -1314,6 +1337,14 @@ example : calTimeout ⟨5, 10, 100, 7000, 100, 0⟩ = some (timeoutFormula ⟨5,
   refine ⟨calTimeout_eq _ (by decide), by decide, ?_, ?_⟩
   · exact normPower_gen 30 40 4294967295 maxUint32_const (by decide) (by decide)
   · exact normPower_gen 10 40 4294967295 maxUint32_const (by decide) (by decide)
+
+/-- `stored_confirm_valid_for_no_other_chain_text` is not vacuous: a typed run on a chain whose gravity id is the TEXT "x" in
+which a confirmation gets stored -/
+example : gidParamValid [120] = true ∧ ∃ e, e ∈ (run (fun _ s => if s == [9] then some "0xExt" else none) {}
+    ([TOp.store "" (.oset ⟨7, []⟩), .other (.setOracle 1 ⟨"bridgerY", "0xExt"⟩), .other (.setIndex "0xExt" 1),
+      .other (.confirm ⟨.oracleSet 7, "bridgerY", "0xExt", some [9]⟩)].map (TOp.toOp id ((gidWord [120]).getD 0)))).confirms := by
+  refine ⟨by decide, ⟨.oracleSet 7, 1, "bridgerY", "0xExt", [9], digestOf id ((gidWord [120]).getD 0) (.oset ⟨7, []⟩), ⟨"bridgerY", "0xExt"⟩⟩, ?_⟩
+  simp [run, step, stepOther, TOp.toOp, keyOf, confirmStep, hasConfirm, upsert, List.lookup]
 
 example : drawIds 3 none = [1, 2, 3] ∧ drawIds 2 (some (2 ^ 63 - 1)) = [2 ^ 63 - 1, 2 ^ 63] := by decide
 
